@@ -61,6 +61,7 @@ def parseFault? (s : String) : Option (Fault × String) :=
   match s.splitOn ":" with
   | ["none"] => some (.none, "")
   | ["cb", j] => j.toNat?.map (fun j => (.callback j, ""))
+  | ["panic", j] => j.toNat?.map (fun j => (.panic j, ""))
   | ["write", k, e] => k.toNat?.map (fun k => (.write k, e))
   | ["close", e] => some (.close, e)
   | ["rename", e] => some (.rename, e)
@@ -75,7 +76,7 @@ def parseCb? (s : String) : Option CbMode :=
 
 def showRes (r : Res) (e : String) : String :=
   match r with
-  | .ok => "ok" | .invalid => "invalid" | .closed => "closed" | .cb => "cb" | .errno => "errno:" ++ e
+  | .ok => "ok" | .invalid => "invalid" | .closed => "closed" | .cb => "cb" | .errno => "errno:" ++ e | .panic => "panic"
 
 def pname (p : Path) : String := if p = dstP then "dst" else if p = tmpP then "tmp" else "other"
 
@@ -169,6 +170,7 @@ def step (st : St) (line : String) : St × String :=
       let extra := if (fs tmpP).isSome then 1 else 0
       let upto := match f with
         | .callback j => j
+        | .panic j => j
         | _ => pieces.length
       (st, s!"res={showRes r.1 e} dst={showState (fs dstP)} extra={extra} mid={midPoints st.N pieces upto f.writeAt} reader={if readerOk um old (newFile mode um pieces) r.2 then "ok" else "BAD"}")
     | _, _, _, _, _, _ => (st, "bad-op")
